@@ -136,6 +136,10 @@ func runC09(c *Ctx) {
 	c.rule("R09.3", "dispatcher: at least one reply on every id-bearing path, never a reply after a reply")
 	c.rule("R09.4", "no error reply is followed by running the handler for that request")
 	c.rule("R09.5", "protocol error codes at their sites: -32601 / -32602 / -32600 / -32700")
+	c.rule("R09.10", "an empty (also whitespace-only) body is answered, never indexed: body-byte indexes are guarded by a non-empty test of the same buffer")
+	c.bodyBytesIndexRule("R09.10")
+	c.ruleOpt("R09.9", "no reply bytes live in pooled memory that is handed back before they are written")
+	c.poolSharedRule("R09.9", nil)
 	c.rule("R09.6", "batch framing: one framing provider ('[' first, ',' later, only before real output), used by every emitter in the loop; ']' iff something was emitted; the loop never aborts the array")
 	c.rule("R09.7", "WebSocket: a request without id gets a discarding non-nil writer, an id-bearing one the locked message writer")
 
@@ -876,7 +880,69 @@ func (c *Ctx) arityGate(rule string) {
 			return
 		}
 	}
+	// the arity test only means something if the params were decoded: a path that skips the decode
+	// although params may be present (e.g. "methods without arguments have nothing to decode") makes the
+	// test compare 0 with the declared count, and surplus params run a zero-parameter handler
+	isDecode := func(x ssa.Instruction) bool {
+		ci, ok := x.(ssa.CallInstruction)
+		if !ok {
+			return false
+		}
+		t := decodeTarget(ci)
+		if t == nil {
+			return false
+		}
+		al, ok := t.(*ssa.Alloc)
+		return ok && dec[al] != nil
+	}
+	paramsAbsentEdge := func(from *ssa.BasicBlock, k int) bool {
+		if !rawEdge(from, k) {
+			return false
+		}
+		iff, ok := from.Instrs[len(from.Instrs)-1].(*ssa.If)
+		if !ok {
+			return true
+		}
+		bo, ok := curFacts.aliasOf(iff.Cond).(*ssa.BinOp)
+		if !ok {
+			return true
+		}
+		// len(<raw params of the request>) > 0 / != 0 / == 0: the absent side is a legitimate skip
+		L, R, op := bo.X, bo.Y, bo.Op
+		if _, isLen := lenOf(L); !isLen {
+			if _, isLen2 := lenOf(R); isLen2 {
+				L, R, op = R, L, flip(op)
+			}
+		}
+		ls, isLen := lenOf(L)
+		if !isLen {
+			return true
+		}
+		if bt, ok := ls.Type().Underlying().(*types.Slice); !ok || !isByteType(bt.Elem()) {
+			return true
+		}
+		kst, isK := constInt(stripConvInt(R))
+		if !isK || kst != 0 {
+			return true
+		}
+		absentWhenTrue := op == token.EQL || op == token.LEQ
+		absentWhenFalse := op == token.GTR || op == token.NEQ
+		if (k == 0 && absentWhenTrue) || (k == 1 && absentWhenFalse) {
+			return false // params absent: nothing to decode
+		}
+		return true
+	}
+	isAnyTest := func(x ssa.Instruction) bool { return isTest(x) }
+	if w := reachFromBlockF(d.Blocks[0], isAnyTest, isDecode, paramsAbsentEdge); w != nil && len(dec) > 0 {
+		c.bad(rule, construct, c.ipos(w), "the arity test can be reached without the params having been decoded although params may be present: the test then compares 0 with the declared count, so surplus params run a zero-parameter handler instead of being rejected with -32602")
+		return
+	}
 	c.ok(rule, construct, c.ipos(tests[0]), "every non-raw path to the handler passes the arity test on its equal edge")
+}
+
+func isByteType(t types.Type) bool {
+	b, ok := t.Underlying().(*types.Basic)
+	return ok && (b.Kind() == types.Byte || b.Kind() == types.Uint8)
 }
 
 // codeTable: R09.5
